@@ -76,6 +76,9 @@ class MacroVisitor(ExplorerScriptVisitor):
     def visitMacrodef_children(self, macrodef_handler: MacroDefCompileHandler) -> ExplorerScriptMacro:
         """Visit the children of the macro def, after the macro resolution order has been processed"""
         self._root_handler = macrodef_handler
+        # Every macro gets a source map of its own, it must only contain the entries and position marks of this macro.
+        self.source_map_builder = SourceMapBuilder()
+        self.compiler_ctx.source_map_builder = self.source_map_builder
         self.visitChildren(macrodef_handler.ctx)
 
         blueprints = self._root_handler.collect()
